@@ -103,8 +103,10 @@ impl World {
             return Ok(false);
         }
         let mut delivered = 0;
+        let mut carried: Vec<std::sync::Arc<crate::codec::Msg>> = Vec::new();
         for _ in 0..3 {
             let Some(fi) = self.flights.iter().position(|f| f.seq > seq0 && ((f.from == a && f.to == b) || (f.from == b && f.to == a))) else { break };
+            carried.push(self.flights[fi].msg.clone());
             self.deliver_idx(fi, false)?;
             delivered += 1;
         }
@@ -115,7 +117,13 @@ impl World {
             self.stats.inc("handshakes_with_lag");
             let after = self.rank(&[a, b]);
             if !Self::progressed(&before, &after) {
-                if let Some(h) = hog {
+                // KF-2 is starvation: the lagging member's data did not make it into the datagrams.
+                // If a non-empty delta for a lagging member was delivered and still nothing
+                // advanced, that is not KF-2.
+                let lag_delta_delivered = carried.iter().any(|m| {
+                    m.ops().and_then(|ops| crate::codec::group_ops(ops)).map(|ds| ds.iter().any(|d| lag.contains(&d.id) && (!d.kvs.is_empty() || d.has_setmax))).unwrap_or(false)
+                });
+                if let (Some(h), false) = (hog, lag_delta_delivered) {
                     self.hog_seen = true;
                     self.known_kf2(format!("complete handshake n{a}<->n{b} advanced no copy although they differ on {}: {} is still sent by one side and no longer advertised by the other", lag[0].short(), h.short()));
                     return Ok(complete);
